@@ -1,25 +1,24 @@
 SPECIFICATION Spec
 CONSTANTS
   N = 2
-  Kinds <- K_callables
-  TKs <- TK_core
+  Kinds <- K_fncls
+  TKs <- TK_small
   AllowList = FALSE
   AllowNSkip = FALSE
   AllowVSkip = FALSE
-  AllowReturn = TRUE
+  AllowReturn = FALSE
   AllowMoved = FALSE
   AllowHost = FALSE
-  AllowRename = FALSE
+  AllowRename = TRUE
   MaxFunctions = 1
   Stepwise = TRUE
   AliasRecheck = TRUE
   CallableWalks = 2
-  RenameScopeCheck = TRUE
-  COrder = FALSE
-  Orders <- Perm2
-  KnownShapes <- Known_any
+  RenameScopeCheck = FALSE
+  COrder = TRUE
+  Orders <- Id2
+  KnownShapes <- W_rename
   ExportViol = 0
   ExportOk = 0
-INVARIANT NoUnknownViolation
-PROPERTY MonotoneStep
+INVARIANT NoWitness
 CHECK_DEADLOCK FALSE
